@@ -592,9 +592,25 @@ pub fn capacity() {
                     return Err(format!("push {i} was handed index {idx}"));
                 }
             }
+            // injected_items() never decreases and never drops below the number of completed pushes, whatever the
+            // reservation counter does (it saturates at the capacity; round 6, C08-m12: truncated before the clamp)
+            let mut last = inj.injected_items();
+            if last != n0 {
+                return Err(format!("injected_items() = {last} after {n0} pushes"));
+            }
+            let mut step = |what: &str| -> Result<(), String> {
+                let now = inj.injected_items();
+                if now < last || now < n0 {
+                    return Err(format!("injected_items went from {last} to {now} {what} ({n0} pushes completed)"));
+                }
+                last = now;
+                Ok(())
+            };
             let _ = catch_unwind(AssertUnwindSafe(|| inj.extend(Liar(first), fill)));
+            step("after the first oversized extend")?;
             if second > 0 {
                 let _ = catch_unwind(AssertUnwindSafe(|| inj.extend(Liar(second), fill)));
+                step("after the second oversized extend")?;
             }
             let before = inj.injected_items();
             for k in 0..3u32 {
@@ -611,7 +627,7 @@ pub fn capacity() {
                     None => return Err(format!("item {i} is gone")),
                 }
             }
-            if inj.injected_items() < before {
+            if inj.injected_items() < before || inj.injected_items() < n0 {
                 return Err(format!("injected_items went down from {before} to {}", inj.injected_items()));
             }
             Ok(())
